@@ -27,6 +27,65 @@ CHECKS = {
              'instants at every run); the envelope abstraction (sound over-approximation of round-to-nearest in the '
              'stated binades). Time strings are placeholders with real syntax: byte-level formatting is outside.',
         ref='DESIGN.md 4/C15'),
+    'C01': dict(
+        text='Bounded symbolic model checking with an assume-guarantee split: (lemma) the real bin1d_vec is decided bit-exactly '
+             '(QF_BVFP) against the half-open contract on each lattice\'s own lon/lat edge arrays for every finite float64; '
+             '(2-D) the real get_index_of / get_masked / get_cartesian / filter_spatial / spatial_counts run on symbolic points '
+             'with bin1d_vec replaced by exactly that contract, and z3 decides the partition clauses per cell.',
+        note='Trusted: z3; the numpy model; the substitution of the proven 1-D contract for bin1d_vec inside the region '
+             '(sound because the lemma is decided on the same arrays in the same run). Lattices outside the family are outside.',
+        ref='DESIGN.md 4/C01'),
+    'C03': dict(
+        text='Bounded symbolic model checking over N<=2 (3) symbolic events: the real gridding functions of CSEPCatalog run on a '
+             'structured-array model with symbolic coordinates and magnitudes (reals; bin1d_vec arithmetic is linear), on an '
+             'abstract Cartesian region (C01 contract as an uninterpreted cell function) and on the real zoom-1 quadtree grid.',
+        note='Trusted: z3; numpy model incl. add.at / fancy-index semantics (negative wrap, repeated indices). Float rounding of '
+             'magnitudes is C02\'s subject (band excluded).',
+        ref='DESIGN.md 4/C03'),
+    'C04': dict(
+        text='Bounded symbolic model checking: the real filter / filter_spatial run on catalogs of 2 (3) symbolic events with '
+             'symbolic thresholds and symbolic datetime instants; the oracle is the exact conjunction of the statements; orders, '
+             'sequential application, idempotence and in_place=False are decided in the same exploration.',
+        note='Trusted: z3; structured-array and datetime models; the literal-token contract float(repr(x)) == x.',
+        ref='DESIGN.md 4/C04'),
+    'C05': dict(
+        text='Bounded symbolic model checking in extended-real arithmetic with uninterpreted log/lgamma: the real public L/CL/S/M '
+             'tests run on symbolic rates (zeros allowed) and symbolic counts with symbolic random draws; the observed statistic '
+             'and every simulated entry are compared with the sum of log Poisson pmf as real expressions (-inf iff zero-rate hit).',
+        note='Trusted: z3 (NRA); the numpy model; the real-arithmetic abstraction (rounding of sums is outside the claim).',
+        ref='DESIGN.md 4/C05'),
+    'C06': dict(
+        text='Bounded symbolic model checking, two encodings: bit-exact FP64 for the sampling weights (invariant: non-decreasing, '
+             'flat on zero-rate bins, last weight >= 1; n up to 9 with numpy pairwise-sum semantics) and for the monolithic '
+             'n=3 placement; reals/ints for the placement step from arbitrary invariant-satisfying weights, conserved counts, '
+             'the quantile definition, numpy.ma data semantics of the binary/Brier weights and seed handling for seeds 0..2.',
+        note='Trusted: z3; numpy / numpy.ma model (pairwise sum conformance-checked bitwise); IEEE lemma: division by a positive '
+             'divisor is monotone (stated, not re-proved).',
+        ref='DESIGN.md 4/C06'),
+    'C07': dict(
+        text='Bounded symbolic model checking: floor(n -/+ 1e-6) decided bit-exactly for every integer n in [0, 1e10] through the '
+             'real private and public number tests; tail-probability identities over uninterpreted CDFs with contract; NBD '
+             'parameters as rational identities; catalog N-test against the counting definition for J <= 4 symbolic sizes.',
+        note='Trusted: z3; scipy CDF contract (values never evaluated).',
+        ref='DESIGN.md 4/C07'),
+    'C08': dict(
+        text='Bounded symbolic model checking in real arithmetic with uninterpreted log/sqrt/t-quantile/normal-sf: T-test formulas, '
+             'antisymmetry and zero self-gain for N=2,3 symbolic event rates; W-test against an independent signed-rank '
+             'definition with tie correction over all tie/sign patterns; definedness of the three public entry points with the '
+             'API of the installed numpy/scipy proxied.',
+        note='Trusted: z3 (NRA+UF); abstract region for the public entry points (lookup is C11).',
+        ref='DESIGN.md 4/C08'),
+    'C09': dict(
+        text='Bounded symbolic model checking over unconstrained real / integer samples of size n <= 7 (10): every tie pattern and '
+             'query position at once; the real ecdf functions (sort network, bisection, indexing) against the counting definition.',
+        note='Trusted: z3 (LRA/LIA); numpy sort/searchsorted model.',
+        ref='DESIGN.md 4/C09'),
+    'C16': dict(
+        text='Bounded symbolic model checking in extended reals with uninterpreted exp/log and the Poisson-cdf contract: binary '
+             'log-likelihood and Brier score against their definitions for symbolic rates (zeros allowed) and counts, activity-only '
+             'dependence, and the observed / simulated entries of the three public tests; numpy.ma data semantics modelled.',
+        note='Trusted: z3; numpy.ma model (data semantics conformance-tested).',
+        ref='DESIGN.md 4/C16'),
 }
 
 PENDING_REASON = 'check not built yet in this session (design in DESIGN.md section 4; will be claimed when its harness lands)'
